@@ -163,6 +163,13 @@ def check(run, prog, tier):
                                                 what="every expansion order 2, 4, 6 is claimed")
     if nfw < 3:
         raise AnalysisError("C02-J: only %d delegations between routines with an order parameter found" % nfw)
+    run.rule("C02-K", "the state stored for a grid time is the one at() hands out for that time (nearest grid point, not the "
+                      "lower neighbour of a rounded quotient)", minimum=2)
+    from . import handout
+    for q, ctor in (("quantarhei.qm.propagators.dmevolution.DensityMatrixEvolution", "DensityMatrix"),
+                    ("quantarhei.qm.propagators.dmevolution.ReducedDensityMatrixEvolution", "ReducedDensityMatrix")):
+        handout.check_nearest(run, "C02-K", prog, prog.cls(q), "TimeAxis", ctor,
+                              "the state read at a stored time is that of the previous step and deviates from the exact exponential")
 
     cls = prog.cls(RDM)
     nloops = 0
